@@ -100,7 +100,7 @@ IDENTS = ["alpha", "beta_gamma", "count", "name", "kind_of", "x1", "max_len", "i
           "dolor", "sit_amet", "level", "mode", "tag_list", "depth_limit", "v", "w2", "zeta", "r#type", "r#fn", "naïve"]
 VIDENTS = ["Alpha", "BetaGamma", "Unit", "NewT", "Conf", "LoremIpsum", "X", "HttpGet", "Other", "Zed", "r#type", "r#move"]
 
-FEATURE_MIN = {"nonzero": 8, "map_inc": 6, "with_u8_plus1": 6, "with_upper": 6, "with_fail": 4}
+FEATURE_MIN = {"vflat_skip": 3, "skip_word": 4, "skip_collide": 3, "nonzero": 8, "map_inc": 6, "with_u8_plus1": 6, "with_upper": 6, "with_fail": 4}
 FEATURE_COUNT = {}
 RR = {}
 
@@ -431,11 +431,19 @@ def gen_enum(idx):
             # the fields of a struct variant take every field option a struct receiver's fields take
             if eff_rule == "kebab-case":
                 return None          # kebab-case field names cannot be spelled as identifiers
-            fs, vflat, fdepth = gen_fields(rng.randint(1, 3))
+            # guaranteed minimum of struct variants with a flatten field AND a skipped sibling
+            want = FEATURE_COUNT.get("vflat_skip", 0) < FEATURE_MIN["vflat_skip"]
+            for _attempt in range(400 if want else 1):
+                snap = (dict(FEATURE_COUNT), dict(RR))    # a discarded attempt must not use up forced features
+                fs, vflat, fdepth = gen_fields(rng.randint(2, 3) if want else rng.randint(1, 3))
+                if want and not (vflat and any(not f["flatten"] and not f["multiple"] and f["ty"].has_default for f in fs)):
+                    FEATURE_COUNT.clear(); FEATURE_COUNT.update(snap[0]); RR.clear(); RR.update(snap[1])
+                if not want or (vflat and any(not f["flatten"] and not f["multiple"] and f["ty"].has_default for f in fs)):
+                    break
             if vflat:
                 # make a skipped sibling likely next to a flatten field (suggestions must not offer it)
                 for f in fs:
-                    if not f["flatten"] and not f["skip"] and not f["multiple"] and f["ty"].has_default and rng.random() < 0.4:
+                    if not f["flatten"] and not f["skip"] and not f["multiple"] and f["ty"].has_default and (want or rng.random() < 0.4):
                         f["skip"] = True
                         f["opts"] = [o for o in f["opts"] if not o.startswith(("rename", "with", "map", "and_then", "default", "skip"))] + ["skip"]
                         f.pop("rename", None)
@@ -443,16 +451,20 @@ def gen_enum(idx):
                 return None
             depth = max(depth, fdepth)
             v["fields"] = fs
-        if rng.random() < 0.12:
+        want_sw = kind == "unit" and not word_used and FEATURE_COUNT.get("skip_word", 0) < FEATURE_MIN["skip_word"] and rng.random() < 0.5
+        if want_sw or rng.random() < 0.12:
             v["skip"] = True
             v["opts"].append("skip")
         if rng.random() < 0.2:
             v["rename"] = rng.choice(["renamed%d" % k, "Weird-Name", "x%d" % k])
             v["opts"].append('rename = "%s"' % v["rename"])
-        if kind == "unit" and not word_used and rng.random() < (0.7 if v["skip"] else 0.3):
+        if kind == "unit" and not word_used and (want_sw or rng.random() < (0.7 if v["skip"] else 0.3)):
             v["word"] = True
             word_used = True
             v["opts"].append(rng.choice(["word", "word", "word = true"]))
+            if v["skip"]:
+                # `skip` and `word` on one variant: every textual order, in one attribute and split over two
+                v["layout"] = rr("skip_word_layout", ["skip,word", "word,skip", "skip|word", "word|skip"])
         elif kind == "unit" and not word_used and rng.random() < (0.6 if FEATURE_COUNT.get("word_false", 0) < 3 else 0.1):
             FEATURE_COUNT["word_false"] = FEATURE_COUNT.get("word_false", 0) + 1
             # declared, but not a word variant (darling allows `word` on at most one variant, whatever its value)
@@ -460,6 +472,21 @@ def gen_enum(idx):
             v["opts"].append("word = false")
         v["name"] = v.get("rename") or to_variant(eff_rule, ident)
         variants.append(v)
+    # a skipped variant declared before a selectable one with the same effective name (it must stay inert)
+    if FEATURE_COUNT.get("skip_collide", 0) < FEATURE_MIN["skip_collide"] and len(variants) >= 2:
+        js = [j for j in range(1, len(variants)) if not variants[j]["skip"]]
+        if js:
+            j = rng.choice(js)
+            a = variants[rng.randrange(j)]
+            b = variants[j]
+            if not (a["word"] and not a["skip"]) and not a.get("layout"):
+                if not a["skip"]:
+                    a["skip"] = True
+                    a["opts"].append("skip")
+                a["opts"] = [o for o in a["opts"] if not o.startswith("rename")] + ['rename = "%s"' % b["name"]]
+                a["rename"] = b["name"]
+                a["name"] = b["name"]
+                a["collides"] = True
     names = [v["name"] for v in variants if not v["skip"]]
     if len(set(names)) != len(names) or not names:
         return None
@@ -467,6 +494,11 @@ def gen_enum(idx):
     for v in variants:
         if v["kind"] == "struct" and any("-" in f["name"] for f in v["fields"]):
             return None
+    FEATURE_COUNT["skip_word"] = FEATURE_COUNT.get("skip_word", 0) + sum(1 for v in variants if v.get("layout"))
+    FEATURE_COUNT["skip_collide"] = FEATURE_COUNT.get("skip_collide", 0) + sum(1 for v in variants if v.get("collides"))
+    FEATURE_COUNT["vflat_skip"] = FEATURE_COUNT.get("vflat_skip", 0) + sum(
+        1 for v in variants if v["kind"] == "struct" and not v["skip"] and any(f["flatten"] for f in v["fields"])
+        and any(f["skip"] and not f["flatten"] for f in v["fields"]))
     return dict(kind="enum", name=name, rule=rule, variants=variants, allow_unknown=allow_unknown, depth=depth + 1)
 
 
@@ -478,7 +510,8 @@ def enum_type(e):
     valid, invalid = [], []
     for v in e["variants"]:
         if v["skip"]:
-            invalid.append("(%s)" % v["name"] if spellable(v["name"]) else ' = "%s"' % v["name"])
+            if v["name"] not in [w["name"] for w in e["variants"] if not w["skip"]]:
+                invalid.append("(%s)" % v["name"] if spellable(v["name"]) else ' = "%s"' % v["name"])
             continue
         n = v["name"]
         if v["kind"] == "unit":
@@ -502,7 +535,7 @@ def enum_type(e):
                 invalid.append("(%s)" % n)
             invalid.append(' = "%s"' % n)
     invalid += ["()", "(nope)", ' = "nope"', " = 5", "(a, b)"]
-    if any(v["word"] for v in e["variants"]):
+    if any(v["word"] and not v["skip"] for v in e["variants"]):
         valid.append("")
     else:
         invalid.append("")
@@ -520,7 +553,17 @@ def emit_enum(e, out):
         out.append("#[darling(%s)]" % ", ".join(cattrs))
     out.append("pub enum %s {" % e["name"])
     for v in e["variants"]:
-        if v["opts"]:
+        if v.get("layout"):
+            w = [o for o in v["opts"] if o.startswith("word")][0]
+            rest = [o for o in v["opts"] if o != "skip" and o != w]
+            lay = v["layout"]
+            seq = ["skip", w] if lay.startswith("skip") else [w, "skip"]
+            if "|" in lay:
+                out.append("    #[darling(%s)]" % ", ".join([seq[0]] + rest))
+                out.append("    #[darling(%s)]" % seq[1])
+            else:
+                out.append("    #[darling(%s)]" % ", ".join(seq + rest))
+        elif v["opts"]:
             out.extend(attr_lines(v["opts"], "    "))
         if v["kind"] == "unit":
             out.append("    %s," % v["ident"])
@@ -564,7 +607,7 @@ def info_enum(e, out):
 
 # ---------------------------------------------------------------- element-level receivers
 
-ATTR_NAMES = ["my", "conf", "opt", "x_attr", "ns::cfg", "::glob"]
+ATTR_NAMES = ["my", "conf", "opt", "x_attr", "ns::cfg", "::glob", "r#kind", "tool::r#mod"]
 outer = []          # dicts
 ff_names, fv_names, ft_names = [], [], []
 
@@ -579,7 +622,11 @@ def gen_outer(idx, kind):
         return None
     k = rng.randint(1, 3)
     attr_names = rng.sample(ATTR_NAMES, k)
-    fwd = rr("fwd", [None, "all", None, "list", "list2", "all", "empty"])
+    # raw-identifier attribute names must not depend on luck
+    forced = rr("attr_name_forced", [None, None, None, "r#kind", None, None, None, "tool::r#mod"])
+    if forced and forced not in attr_names:
+        attr_names[rng.randrange(len(attr_names))] = forced
+    fwd = rr("fwd", [None, "all", None, "list", "list2", "all", "empty", "list3"])
     magic = []
     pool = {"FD": ["ident", "vis", "generics"], "FF": ["ident", "vis", "ty"], "FV": ["ident", "discriminant"],
             "FT": ["ident", "bounds", "default"], "FA": []}[kind]
@@ -637,6 +684,8 @@ def emit_outer(r, out):
         cattrs.append(rng.choice(["forward_attrs(a::b, doc)", "forward_attrs(::allow, a::b, doc)"]))
     elif r["fwd"] == "empty":
         cattrs.append("forward_attrs()")
+    elif r["fwd"] == "list3":
+        cattrs.append("forward_attrs(r#ref, tool::r#move, doc)")
     if r["rule"]:
         cattrs.append('rename_all = "%s"' % r["rule"])
     if r["supports"]:
@@ -840,11 +889,12 @@ def main():
     REQUIRED = ["fns::nonzero", "fns::map_inc", "with = fns::with_fail", "with = fns::with_upper", "with = |m|", "with = fns::with_u8_plus1",
                 "#[darling(flatten)]", "multiple", "#[darling(skip)]", "skip = true", "skip = false", 'default = "fns::', "#[darling(default)]",
                 "rename_all", 'rename = "', "allow_unknown_fields", "from_ident", "supports(", "forward_attrs", "forward_attrs()", "forward_attrs(doc",
-                "attributes(", "ns::cfg", "::glob", "word", "skip", "word = false", "r#type", "r#move", "na\u00efve", "SpannedValue<F", "WithOriginal<F",
+                "attributes(", "ns::cfg", "::glob", "r#kind", "tool::r#mod", "forward_attrs(r#ref", "word", "skip", "word = false", "r#type", "r#move", "na\u00efve", "SpannedValue<F", "WithOriginal<F",
                 "ast::Generics<", "darling::Result<", "and_then = ", "map = ", "ast::Data<", "ast::Fields<", "Vec<syn::Attribute>",
                 "with = fns::attrs_count", "with = fns::attrs_fail", "with = fns::data_kind", "derive(FromTypeParam)", "derive(FromAttributes)",
                 "derive(FromVariant)", "derive(FromField)", "derive(FromDeriveInput)", "HashMap<", "Option<", "Override<", "Flag", "syn::Path", "syn::Expr"]
     missing = [k for k in REQUIRED if k not in text]
+    missing += [k for k in ("vflat_skip", "skip_word", "skip_collide") if FEATURE_COUNT.get(k, 0) < FEATURE_MIN[k]]
     if missing:
         raise SystemExit("corpus lost coverage of: %s — adjust the generator (FEATURE_MIN) and regenerate" % missing)
     open(OUT, "w").write(text)
